@@ -218,13 +218,13 @@ CHECKS = {
                 "full; snapshot interval 4|1000; rotation 700 B|1 MiB), 5-16 acknowledged gRPC writes with seeded pauses (none, short, half an "
                 "interval, idle > interval); at sampled failure instants the trace prefix is replayed under 5 power-loss variants, the real server "
                 "is started on each state and its census must equal a prefix j of the acknowledged operations with j >= the number acknowledged "
-                "more than interval + 600 ms slack before the instant (all of them under full). distinct_nontrivial = distinct (case, crash point, loss variant, torn length) states recovered",
+                "more than interval + 1500 ms slack before the instant (all of them under full). distinct_nontrivial = distinct (case, crash point, loss variant, torn length) states recovered",
         "legs": [{"name": "crash-points", "argv": ["c01"], "shards": 16, "preload": "fsshim", "needs": ["fsshim"]},
                  {"name": "server-periodic", "argv": ["c01", "--leg", "server-periodic"], "bin_args": {"server": "server", "shim": "fsshim"},
                   "shards": 16, "timeout_q": 1800}],
         "assumptions": COMMON_ASSUME + ["the loss model is the property's own (bytes since a file's last fsync and directory changes since the last directory fsync may be dropped, in order)",
                                          "start-up policy as in kyrodb_server: recover (strict) when MANIFEST exists, fresh store otherwise",
-                                         "Periodic(ms>0) and Never policies are judged under the kill model only at library level; the periodic clause is judged on the real binary (leg server-periodic) with 600 ms of scheduling slack on top of the configured interval"],
+                                         "Periodic(ms>0) and Never policies are judged under the kill model only at library level; the periodic clause is judged on the real binary (leg server-periodic) with 1500 ms of scheduling slack on top of the configured interval"],
         "min_evaluations": 16,
         "level_text": "exhaustive enumeration of the crash points of recorded executions (every gap between consecutive file-system effects, with "
                       "torn writes and power-loss variants), each decided by running the real recovery code and comparing with a reference model; "
